@@ -1,7 +1,5 @@
 import Martian.PostProcess
-import Proofs.PostProcessDests
-import Proofs.PostProcessChecked
-import Proofs.PostProcessRecord
+import Martian.PostProcessDefs
 import Gen.Facts
 import Driver.Util
 
